@@ -1021,6 +1021,10 @@ func (r *Runner) builtin(ctx context.Context, pos syntax.Pos, name string, args 
 
 		var vr expand.Variable
 		vr.Kind = expand.Indexed
+		if r.stdin == nil {
+			return failf(2, "%s: unable to read, there's no stdin\n", name)
+		}
+		defer r.unblockStdinOnCancel(ctx)()
 		scanner := bufio.NewScanner(r.stdin)
 		scanner.Split(mapfileSplit(delim[0], dropDelim))
 		for scanner.Scan() {
@@ -1070,6 +1074,25 @@ func (r *Runner) printOptLine(name string, enabled, supported bool) {
 	r.outf("%s\t%s\t(%q not supported)\n", name, state, r.optStatusText(!enabled))
 }
 
+// unblockStdinOnCancel makes reads from the non-nil r.stdin fail as soon as ctx is done,
+// so that a builtin blocked on its standard input notices the cancellation.
+// The returned function must be called once the builtin is done reading.
+func (r *Runner) unblockStdinOnCancel(ctx context.Context) (restore func()) {
+	stopc := make(chan struct{})
+	stop := context.AfterFunc(ctx, func() {
+		r.stdin.SetReadDeadline(time.Now())
+		close(stopc)
+	})
+	return func() {
+		if !stop() {
+			// The AfterFunc was started.
+			// Wait for it to complete, and reset the file's deadline.
+			<-stopc
+			r.stdin.SetReadDeadline(time.Time{})
+		}
+	}
+}
+
 func (r *Runner) readLine(ctx context.Context, raw bool) ([]byte, error) {
 	if r.stdin == nil {
 		return nil, errors.New("interp: can't read, there's no stdin")
@@ -1078,19 +1101,7 @@ func (r *Runner) readLine(ctx context.Context, raw bool) ([]byte, error) {
 	var line []byte
 	esc := false
 
-	stopc := make(chan struct{})
-	stop := context.AfterFunc(ctx, func() {
-		r.stdin.SetReadDeadline(time.Now())
-		close(stopc)
-	})
-	defer func() {
-		if !stop() {
-			// The AfterFunc was started.
-			// Wait for it to complete, and reset the file's deadline.
-			<-stopc
-			r.stdin.SetReadDeadline(time.Time{})
-		}
-	}()
+	defer r.unblockStdinOnCancel(ctx)()
 	for {
 		var buf [1]byte
 		n, err := r.stdin.Read(buf[:])
